@@ -2,6 +2,7 @@ package html
 
 import (
 	"io"
+	"sync"
 
 	"github.com/elliotchance/gedcom/v39"
 	"github.com/elliotchance/gedcom/v39/html/core"
@@ -125,17 +126,25 @@ func (c *PublishHeader) WriteHTMLTo(w io.Writer) (int64, error) {
 	).WriteHTMLTo(w)
 }
 
-var surnames = gedcom.NewStringSet()
+// surnamesByDocument caches the surnames of each document (*gedcom.Document to
+// *gedcom.StringSet). It must be per document because more than one document
+// can be published by the same process.
+var surnamesByDocument sync.Map
 
 func getSurnames(document *gedcom.Document) *gedcom.StringSet {
-	if surnames.Len() == 0 {
-		for _, individual := range document.Individuals() {
-			surname := individual.Name().Surname()
-			if surname != "" {
-				surnames.Add(surname)
-			}
+	if surnames, ok := surnamesByDocument.Load(document); ok {
+		return surnames.(*gedcom.StringSet)
+	}
+
+	surnames := gedcom.NewStringSet()
+	for _, individual := range document.Individuals() {
+		surname := individual.Name().Surname()
+		if surname != "" {
+			surnames.Add(surname)
 		}
 	}
+
+	surnamesByDocument.Store(document, surnames)
 
 	return surnames
 }
